@@ -188,6 +188,9 @@ func shapeFacts(out map[string]any) {
 		out["shape_anchor_gate_"+fn] = false
 	}
 	out["shape_verifydnssec_anchors_own_dnskey_rrset"] = false
+	out["shape_root_ds_from_anchors_answer"] = false
+	out["shape_root_ds_from_anchors_authority"] = false
+	out["shape_bare_denials_go_through_authority"] = false
 	fset := token.NewFileSet()
 	file, err := parser.ParseFile(fset, filepath.Join(repoDir(), "middleware/resolver/resolver.go"), nil, 0)
 	if err != nil {
@@ -253,6 +256,42 @@ func shapeFacts(out map[string]any) {
 			})
 			first := posOfCall(fd.Body, "findRRSIGSigners")
 			out["shape_anchor_gate_"+name] = gate != 0 && first != 0 && gate < first
+			// (3) a response served by the root gets its DS set from the trust anchors before anything is judged
+			if name != "validateDelegation" {
+				p := posOfCall(fd.Body, "rootParentDS")
+				out["shape_root_ds_from_anchors_"+name] = p != 0 && first != 0 && p < first
+			}
+		case "resolve":
+			// a bare NXDOMAIN and the "no answer, no authority" NOERROR are handed to authority():
+			// the function's last statement returns r.authority(...), and inside the
+			// `Rcode != Success && no answer && no authority` block an NXDOMAIN does the same
+			last := fd.Body.List[len(fd.Body.List)-1]
+			lastOK := false
+			if rs, ok := last.(*ast.ReturnStmt); ok && len(rs.Results) > 0 && posOfCall(rs.Results[0], "authority") != 0 {
+				lastOK = true
+			}
+			nxOK := false
+			ast.Inspect(fd.Body, func(x ast.Node) bool {
+				is, ok := x.(*ast.IfStmt)
+				if !ok {
+					return true
+				}
+				be, ok := is.Cond.(*ast.BinaryExpr)
+				if !ok || be.Op != token.EQL {
+					return true
+				}
+				if sel, ok := be.Y.(*ast.SelectorExpr); ok && sel.Sel.Name == "RcodeNameError" {
+					if l, ok := be.X.(*ast.SelectorExpr); ok && l.Sel.Name == "Rcode" {
+						for _, st := range is.Body.List {
+							if rs, ok := st.(*ast.ReturnStmt); ok && len(rs.Results) == 1 && posOfCall(rs.Results[0], "authority") != 0 {
+								nxOK = true
+							}
+						}
+					}
+				}
+				return true
+			})
+			out["shape_bare_denials_go_through_authority"] = lastOK && nxOK
 		case "verifyDNSSEC":
 			// the signer's own DNSKEY response is checked with the DS-anchored keys:
 			// VerifyDSAnchoredWithWork is called, and its first result is what VerifyRRSIGWithWork receives
